@@ -186,7 +186,15 @@ def step (s : St) (ws : List String) : St × String :=
       let outside := (txs.filterMap id).map fun p => match p.1 with
         | .bvm _ c _ _ => c.startsWith "?"
         | _ => false
-      ({ s with node := n' }, showBlock out outside)
+      -- does the hypothesis of C04_block_final_stays hold of this block?  (no record on the timeout list of this height is
+      -- final when the timeout step runs) — evaluated on the model's own state, reported as a model-only annotation
+      let h := s.node.height + 1
+      let a := applyTxs s.cfg s.node.cache h s.node.led (txs.filterMap id)
+      let l2 := setTimeoutList s.cfg a.led h ((txs.filterMap id).map (·.1)) a.rcpts
+      let listedFinal := (getTimeoutList l2 h).any fun id => match id with
+        | .single t => (match l2.getS (.txRec t) with | some (.trec r) => r.status.isFinal | _ => false)
+        | .global _ => false
+      ({ s with node := n' }, showBlock out outside ++ " ##m listedfinal=" ++ (if listedFinal then "1" else "0"))
     else (s, "bad-op unparsed")
   | ["q", "status", id] =>
     match parseTxId id with
